@@ -104,7 +104,9 @@ fn parse_ws(s: &str) -> Option<WScript> {
 }
 
 fn show_wire(w: &Wire) -> String {
-    let ws = if w.writes.is_empty() { "-".to_string() } else { w.writes.iter().map(|b| hex(b)).collect::<Vec<_>>().join(".") };
+    // the first buffer in full, the later ones (suffixes under write_all) by length only
+    let ws = if w.writes.is_empty() { "-".to_string() } else {
+        w.writes.iter().enumerate().map(|(i, b)| if i == 0 { hex(b) } else { format!("#{}", b.len()) }).collect::<Vec<_>>().join(".") };
     format!("w={} recv={} fl={}", ws, hex(&w.recv), w.flushes)
 }
 
